@@ -861,6 +861,12 @@ func (m *Machine) needCanon(st *State, s *Str) {
 	if s.Arr.op != "var" && s.Arr.op != "select" {
 		return
 	}
+	if s.Arr.op == "select" {
+		// content arrays read out of memory: canonical by the representation invariant of strings
+		if a := s.Arr.args[0]; a.op == "lambda" {
+			return
+		}
+	}
 	i := m.ctx.Bound("ci", m.ts.Idx())
 	z := m.ts.IdxConst(0)
 	body := m.ctx.Implies(m.ctx.Or(m.idxLt(i, z), m.idxLe(s.Len, i)), m.ctx.Eq(m.ctx.Select(s.Arr, i), m.ts.zeroOf(m.ts.ByteSort())))
